@@ -932,12 +932,15 @@ impl Mp4TrackWriter {
         self.update_sample_times(sample.duration);
         self.update_rendering_offsets(sample.rendering_offset);
         self.update_sync_samples(sample.is_sync);
-        if self.is_chunk_full() {
-            self.write_chunk(writer)?;
-        }
         self.update_durations(media_duration, track_duration);
 
         self.sample_id += 1;
+
+        // the sample is accounted for before the flush: a flush that fails
+        // leaves it buffered, with every table and counter in step
+        if self.is_chunk_full() {
+            self.write_chunk(writer)?;
+        }
 
         Ok(self.trak.tkhd.duration)
     }
@@ -958,7 +961,7 @@ impl Mp4TrackWriter {
             first_chunk: chunk_id,
             samples_per_chunk: self.chunk_samples,
             sample_description_index: 1,
-            first_sample: self.sample_id - self.chunk_samples + 1,
+            first_sample: self.sample_id - self.chunk_samples,
         };
         self.trak.mdia.minf.stbl.stsc.entries.push(entry);
     }
